@@ -98,7 +98,11 @@ def harness(args, timeout=1800, ok_codes=(0,), env=None):
         e.update(env)
     args = [str(a) for a in args]
     if args and args[0] == "exec":
-        return _harness_exec(args, timeout, e)
+        p = _harness_exec(args, timeout, e)
+        for _ in range(4):
+            if not recheck_hangs(args[1], args[2], args[3], args[4] if len(args) > 4 else "5000", e, timeout):
+                break
+        return p
     try:
         p = subprocess.run([harness_bin()] + args, stdout=subprocess.PIPE,
                            stderr=subprocess.PIPE, text=True, timeout=timeout, env=e)
@@ -109,13 +113,13 @@ def harness(args, timeout=1800, ok_codes=(0,), env=None):
     return p
 
 
-def _harness_exec(args, timeout, e):
+def _harness_exec(args, timeout, e, first=0):
     """exec <component> <cases> <obs> [timeout_ms]: the harness appends the observations case by case.  Exit status 1
     is the library's own process-exiting panic hook (Pipe::new installs it) firing inside the code under test: that is
     data, not a tool failure - the case in flight is recorded as `process_exit` and the run resumes behind it."""
     comp, cases_path, obs_path = args[1], args[2], args[3]
     to = args[4] if len(args) > 4 else "5000"
-    first, exits = 0, 0
+    exits = 0
     ncases = len(read_ndjson(cases_path))
     while True:
         try:
@@ -641,6 +645,11 @@ def finish(ctx, level="model_checking"):
         "known_findings_seen": [k[0] for k in ctx.known],
     }
     cov.update(ctx.extra)
+    if SLOW_CASES:
+        # time-outs that did not repeat (see recheck_hangs): judged on the records of the repetition, listed here
+        cov["slow_cases"] = SLOW_CASES[:10]
+        log("SLOW property=%s %d case(s) ran into the per-case time-out once and returned in every repetition on their own "
+            "(judged on the repetition)" % (ctx.pid, len(SLOW_CASES)))
     nviol = len(ctx.violations)
     # records that TLC could not evaluate are undecided: they may be stepped over when the run reports a violation anyway,
     # but a run that would otherwise end "held" has not decided them - that is a tool error, not a pass
@@ -679,13 +688,85 @@ def finish(ctx, level="model_checking"):
 # --------------------------------------------------------------------------
 # the common shape of a functional property check
 
+SLOW_CASES = []     # cases that ran into the per-case time-out once and returned in every repetition on their own
+_rechecking = False
+
+
+def recheck_hangs(component, cases_path, obs_path, per_case_timeout_ms, env, timeout=1800):
+    """A case that did not return within the per-case time-out was recorded as `hang` by the harness.  A time-out is a
+    statement about wall-clock time on a machine that other checks share, not yet one about the code: every such case is
+    executed again on its own in a fresh process - once, and if that goes through, as often as fits into 30 s (2 to
+    30 times).  If any repetition runs into the time-out again, the `hang` record stands (and is judged a violation);
+    if every repetition returns, the records of the first repetition take the place of the `hang` record (the case is
+    judged like every other one) and the event is listed in the evidence (`slow_cases`).  The harness stops executing after
+    six time-outs (`notrun` records): if none of the time-outs stands, the run is resumed behind them (returns True: the
+    resumed part has to be looked at again)."""
+    global _rechecking
+    if _rechecking or not os.path.exists(obs_path):
+        return False
+    obs = read_ndjson(obs_path)
+    hung = [k for k, r in enumerate(obs) if r.get("st") == "hang" and "case" in r]
+    if not hung:
+        return False
+    _rechecking = True
+    try:
+        changed = False
+        for n, k in enumerate(hung):
+            case = obs[k]["case"]
+            cpath, opath = "%s.hang-%d.ndjson" % (obs_path, n), "%s.hang-%d.obs" % (obs_path, n)
+
+            def rerun(times):
+                with open(cpath, "w") as f:
+                    for _ in range(times):
+                        f.write(json.dumps(case, ensure_ascii=False) + "\n")
+                for q in (opath, opath + ".done"):
+                    if os.path.exists(q):
+                        os.remove(q)
+                t = time.time()
+                _harness_exec(["exec", component, cpath, opath, str(per_case_timeout_ms)], 1800, env)
+                recs = read_ndjson(opath)
+                bad = [r for r in recs if r.get("st") in ("hang", "notrun")]
+                return recs, bad, (time.time() - t) / times
+
+            recs, bad, per = rerun(1)
+            total = 1
+            if not bad:
+                more = max(2, min(30, int(30.0 / max(per, 0.01))))
+                _, bad, _ = rerun(more)
+                total += more
+            if bad:
+                log("[hang] %s record %d hangs again on its own (%d repetitions): the record stands" % (component, k + 1, total))
+                continue
+            obs[k] = ("__repl__", recs)
+            changed = True
+            SLOW_CASES.append({"component": component, "timeout_ms": int(per_case_timeout_ms), "repetitions": total, "case": case})
+            log("[hang] %s: a case ran into the per-case time-out (%s ms) once and returned in all of %d repetitions on its own"
+                % (component, per_case_timeout_ms, total))
+        stands = any(isinstance(r, dict) and r.get("st") == "hang" for r in obs)
+        notrun = [k for k, r in enumerate(obs) if isinstance(r, dict) and r.get("st") == "notrun"]
+        resume = bool(notrun) and not stands
+        if resume:
+            obs = obs[:notrun[0]]
+        if changed:
+            with open(obs_path, "w") as f:
+                for r in obs:
+                    for x in (r[1] if isinstance(r, tuple) and r[0] == "__repl__" else [r]):
+                        f.write(json.dumps(x, ensure_ascii=False) + "\n")
+        if resume:
+            ncases = len(read_ndjson(cases_path))
+            log("[hang] %s: resuming behind %d time-outs that did not repeat (case %d of %d)" % (component, len(hung), ncases - len(notrun), ncases))
+            _harness_exec(["exec", component, cases_path, obs_path, str(per_case_timeout_ms)], timeout, env, first=ncases - len(notrun))
+        return resume
+    finally:
+        _rechecking = False
+
+
 def exec_and_judge(ctx, component, cases_path, trace_module, label, per_case_timeout_ms=30000,
                    env=None, sample_keys=None, judge_timeout=1500):
     """cases -> real code (harness exec) -> observation log -> TLC judge."""
     obs_path = ctx.path("obs-%s.ndjson" % label)
     harness(["exec", component, cases_path, obs_path, per_case_timeout_ms])
     obs = read_ndjson(obs_path)
-    # records of hung cases carry only the case; give them the fields the judge reads first
     fails, drifts, st = judge(ctx, trace_module, obs_path, len(obs), env=env, name="%s-%s" % (trace_module, label),
                               timeout=judge_timeout)
     ctx.traces += len(obs)
